@@ -1077,6 +1077,26 @@ pub fn run_hdradv(args: &Args) -> (u64, u64) {
                         c.wrath_complete(&mut cl, rng.gen(), via);
                     }
                 }
+                // a long header cut off after exactly four bytes (and after 1..3), through the read-based call
+                for cut in [4usize, 1, 3] {
+                    if let Some(h) = c.enc_server_hdr(&mut sv, 0x7F_0000 + cut as u32, 0x1EE, via) {
+                        let res = c.read_hdr(&mut cl, "server", &[Step::Data(h[..cut].to_vec())], via);
+                        // whatever happened, hand over the rest so that both sides stay in step
+                        if cut == 4 && res["kind"] == "err" {
+                            c.wrath_complete(&mut cl, h[4], via);
+                        } else if cut < 4 {
+                            c.read_hdr(&mut cl, "server", &[Step::Data(h.clone())], via);
+                        }
+                    }
+                }
+                // random 4-byte groups through the read-based call with nothing after them
+                for _ in 0..6 {
+                    rng.fill_bytes(&mut g4);
+                    let res = c.read_hdr(&mut cl, "server", &[Step::Data(g4.to_vec())], via);
+                    if res["kind"] == "err" {
+                        c.wrath_complete(&mut cl, rng.gen(), via);
+                    }
+                }
                 // a long header whose fifth byte arrives only after other bytes went through the raw decrypt
                 if let Some(h) = c.enc_server_hdr(&mut sv, 0x18000, 0x1EE, via) {
                     let mut a4 = [0u8; 4];
